@@ -83,8 +83,11 @@ class Pi(schemes.interface.inverted_index_sse.InvertedIndexSSE):
         for i in range(t + 1):
             d_len = (2 ** i) * len(self.config.ske.Encrypt(b"\x00" * self.config.param_k_prime,
                                                            b"\x00" * self.config.param_identifier_size))
+            # Lists are padded to powers of two, so the padded sizes sum to less than 2N = 2^{t+1}:
+            # level i holds fewer than 2^{t+1-i} lists, and is padded to exactly that many entries.
             T_list[i].extend(
-                ((os.urandom(self.config.param_l), os.urandom(d_len)) for _ in range((2 ** (t - i)) - len(T_list[i]))))
+                ((os.urandom(self.config.param_l), os.urandom(d_len)) for _ in
+                 range((2 ** (t + 1 - i)) - len(T_list[i]))))
 
         # padding list S to N elements, fillers have the same size as the encrypted list lengths
         ni_prime_len = len(self.config.ske.Encrypt(b"\x00" * self.config.param_k_prime,
